@@ -89,14 +89,22 @@ pub fn gen_case(prop: &str, seed: u64) -> Case {
                 p.w_insert = 45;
                 p.w_delete = 8;
                 p.pk_pct = 85;
+            } else {
+                p.pk_pct = 70;
+                p.w_raw_query = 18;
+                p.w_create = 10;
             }
             p.w_reopen = 2;
+            p.dup_key_pct = *krng.pick(&[8u64, 8, 30, 50]);
+            p.borrow_key_pct = *krng.pick(&[0u64, 20, 40]);
+            p.same_key_type_pct = 60;
             p.invalid_pct = 8;
             p.pk_first_only = false;
             p.key_first_projection = false;
             p.pk_types = vec![Ty::Int, Ty::Int, Ty::Int, Ty::BigInt, Ty::Varchar, Ty::SmallInt, Ty::Date, Ty::Decimal];
+            let directed = krng.chance(1, 5);
             let mut g = Gen::new(&mut wrng, p);
-            case.steps = g.history();
+            case.steps = if directed { g.join_scenario() } else { g.history() };
         }
         "C07" => {
             let mut p = Profile::base();
